@@ -59,6 +59,8 @@ const (
 type DoneWithState struct {
 	*interop.Done
 	State statejson.InternalStateDescription
+	// InvokeID is the invocation this DONE belongs to; AwaitRelease discards DONEs of other invocations
+	InvokeID string
 }
 
 func (s *DoneWithState) String() string {
@@ -545,7 +547,7 @@ func (s *Server) FastInvoke(w http.ResponseWriter, i *interop.Invoke, direct boo
 	go func() {
 		if s.invoker == nil {
 			// Reset occurred, do not send invoke request
-			s.InvokeDoneChan <- DoneWithState{State: s.InternalStateGetter()}
+			s.InvokeDoneChan <- DoneWithState{State: s.InternalStateGetter(), InvokeID: invokeID}
 			s.setRuntimeState(runtimeInvokeComplete)
 			return
 		}
@@ -572,12 +574,13 @@ func (s *Server) FastInvoke(w http.ResponseWriter, i *interop.Invoke, direct boo
 			}
 			doneFail := doneFailFromInvokeFailure(invokeFailure)
 			s.InvokeDoneChan <- DoneWithState{
-				Done:  &interop.Done{ErrorType: doneFail.ErrorType, Meta: doneFail.Meta},
-				State: s.InternalStateGetter(),
+				Done:     &interop.Done{ErrorType: doneFail.ErrorType, Meta: doneFail.Meta},
+				State:    s.InternalStateGetter(),
+				InvokeID: invokeID,
 			}
 		} else {
 			done := doneFromInvokeSuccess(invokeSuccess)
-			s.InvokeDoneChan <- DoneWithState{Done: done, State: s.InternalStateGetter()}
+			s.InvokeDoneChan <- DoneWithState{Done: done, State: s.InternalStateGetter(), InvokeID: invokeID}
 		}
 	}()
 
@@ -787,8 +790,15 @@ func (s *Server) AwaitRelease() (*statejson.ReleaseResponse, error) {
 		s.setRuntimeState(runtimeInvokeComplete)
 	}()
 
+awaitDone:
 	select {
 	case doneWithState := <-s.InvokeDoneChan:
+		if doneWithState.InvokeID != "" && doneWithState.InvokeID != s.GetCurrentInvokeID() {
+			// a DONE pushed late by an invocation that was already reset must not end this one
+			log.Warnf("Discard stale DONE response of invoke %s", doneWithState.InvokeID)
+			goto awaitDone
+		}
+
 		if len(doneWithState.ErrorType) > 0 && string(doneWithState.ErrorType) == ErrInitDoneFailed.Error() {
 			return nil, ErrInitDoneFailed
 		}
